@@ -23,14 +23,31 @@ CHECK = Check(
         "test-function evaluator OW/Util/ExprFn.lean = exprEval in harness/cmd/owharness/fam_fn.go (same token stream)",
     ],
     assumptions=[
-        "FindRoot theorems: minX ≤ maxX, f minX ≤ 0 ≤ f maxX, tolerance > 0, initialX ∈ [minX, maxX] (only needed for maxIterations = 0); "
-        "evals_in_interval/better_end/tolerance additionally: f non-decreasing on [minX, maxX]; tolerance clause: f L-Lipschitz there and "
+        "FindRoot theorems: minX ≤ maxX, f minX ≤ 0 ≤ f maxX. NO hypothesis on initialX for bracket_inv_any_guess, result_delta_is_value, "
+        "width_halves, delta_le_final_ends, no_conv_exit, tol_exit, delta_bound, tolerance_reached, better_end_any_guess, "
+        "better_end_unless_tol_exit, and for result_in_interval_n1 (maxIterations ≥ 1). initialX ∈ [minX, maxX] is needed (i) by "
+        "result_in_interval for maxIterations = 0 (the result is the guess), and (ii) by evals_in_interval / evals_in_interval_mono for EVERY "
+        "iteration count, because fn(initialX) is the first call the code makes (result_in_interval / bracket_inv / better_end keep a form with "
+        "the guess in the interval for their users in OW.Props.C11)",
+        "'never evaluated outside the interval' is stated under the property's monotone premise: evals_in_interval_mono (f non-decreasing on "
+        "[minX, maxX], tolerance > 0), which also proves that every secant point that is evaluated is a genuine quotient "
+        "(secant_nondegenerate_of_monotone = secant_genuine lifted to the whole loop). The non-monotone form evals_in_interval takes the explicit "
+        "non-degeneracy hypothesis SecantNondeg (maxDelta ≠ minDelta at every iteration whose halving trial does not return): without it ℝ "
+        "evaluates the secant (…)·0/0 to 0 while the code evaluates f(NaN) and continues on a different path (secant_degenerate_example: "
+        "f x = 2x − x² on [0,2]); the FR correspondence compares such runs bit for bit at Float (NaN in the evaluation log on both sides)",
+        "better_end / tolerance clauses additionally: f non-decreasing on [minX, maxX], maxIterations ≥ 1; tolerance clause: f L-Lipschitz there and "
         "convergenceLimit ≤ 0 (the exit on convergence in x is a separate stopping rule that may return above the tolerance)",
-        "better_end is `|delta| ≤ better end ∨ |delta| < tolerance`: a trial accepted because it is within the tolerance may be worse than a "
-        "bracket end that was already within it (proved counter-example to the unconditional form; 5 % of generated monotone cases)",
         "Piecewise theorems: table strictly increasing, length ≥ 2, ys at least as long as xs",
     ],
-    partial=[],
+    partial=[
+        "better_end (better_end_any_guess): the property's clause 'no larger in magnitude than at the better end of the initial bracket' is proved "
+        "only as the DISJUNCTION `|delta| ≤ better end ∨ |delta| < tolerance` (and without disjunction for runs that do not leave through the "
+        "tolerance test: better_end_unless_tol_exit). The unconditional clause is FALSE for the code: better_end_counterexample (f x = x on "
+        "[−1e-6, 9e-4], tolerance 1e-3: returns 4.495e-4, the lower end has 1e-6). It fails only when the returned value is within the tolerance; "
+        "recorded as known finding KF-C18-better-end-within-tolerance (oracle scope FindRoot:better-end-within-tolerance, about 5 % of the "
+        "generated monotone cases), printed as KNOWN-FINDING on every run",
+        "maxIterations = 0: better end not guaranteed (zero_iterations_counterexample; known finding KF-C18-zero-iterations)",
+    ],
 )
 
 META = dict(
@@ -42,7 +59,7 @@ META = dict(
          "between neighbouring table values, error outside the table and when every comparison is false (NaN). The models are tied to "
          "the code on every run by bit-exact differential execution including the logged evaluation points.",
     design_ref="DESIGN.md §6 C18",
-    note="Known finding KF-C18-zero-iterations (maxIterations=0 returns the initial guess). Repaired in /repo: secant trial clamped "
+    note="Known findings KF-C18-zero-iterations (maxIterations=0 returns the initial guess) and KF-C18-better-end-within-tolerance (a trial accepted within the tolerance may be worse than a bracket end that was already within it). Repaired in /repo: secant trial clamped "
          "into the bracket (rounding could put it one ulp outside and it could be returned), Piecewise exact at the right knot and "
          "never past the neighbouring table value.",
     technique="Lean 4 proof (induction over iterations/fuel and over the trial list; list induction for the table) + differential "
